@@ -5,6 +5,7 @@ from hypothesis import strategies as st
 from vlib import strat as S, oracles as O, harness
 
 ID = "C11"
+SWITCH_OFF = 6        # every 6th case runs with xfab.CHECKS switched off (results must not depend on it)
 EXHAUSTIVE = True
 RULE = ("exhaustive: all 81 orientation matrices over {-1,0,1}^4 x all shapes 1..8 x 1..8 x every pixel x both "
         "directions; Hypothesis: non-square shapes up to 3000 x 3000 (images up to 40x40, pixel subsets beyond), "
